@@ -111,7 +111,7 @@ pub fn defined(ins: Instruction, l: &str, r: &str) -> Option<bool> {
     }
 }
 
-fn run_on(imp: Impl, copy: bool, state: &HostState, ins: Instruction, a: &V, b: Option<&V>) -> Option<(OpOutcome, Vec<Call>)> {
+fn run_on(imp: Impl, copy: bool, state: &HostState, ins: Instruction, a: &V, b: Option<&V>) -> Option<(OpOutcome, Vec<Call>, usize)> {
     match imp {
         Impl::Simple => {
             let mut d = new_simple_hosted(state.clone());
@@ -120,12 +120,19 @@ fn run_on(imp: Impl, copy: bool, state: &HostState, ins: Instruction, a: &V, b: 
                 d = d.clone_with_aux_without_data().ok()?;
             }
             let o = call(&mut d, ins, a, b).ok()?;
-            Some((o, d.host().log.clone()))
+            let log = d.host().log.clone();
+            // the same combination a second time on the same object: it must be offered again
+            let _ = call(&mut d, ins, a, b);
+            let again = d.host().log.iter().filter(|c| matches!(c, Call::Defer(..))).count();
+            Some((o, log, again))
         }
         Impl::Basic => {
             let mut d = new_basic_hosted(state.clone());
             let o = call(&mut d, ins, a, b).ok()?;
-            Some((o, d.host().log.clone()))
+            let log = d.host().log.clone();
+            let _ = call(&mut d, ins, a, b);
+            let again = d.host().log.iter().filter(|c| matches!(c, Call::Defer(..))).count();
+            Some((o, log, again))
         }
     }
 }
@@ -157,7 +164,7 @@ impl C08Check {
         for (imp, copy) in [(Impl::Simple, false), (Impl::Simple, true), (Impl::Basic, false)] {
             for (mode, state) in &modes {
                 ctx.sub_evals += 1;
-                let (out, log) = match run_on(imp, copy, state, ins, a, b) {
+                let (out, log, offered_after_second_call) = match run_on(imp, copy, state, ins, a, b) {
                     Some(x) => x,
                     None => {
                         ctx.class("operands-not-buildable");
@@ -194,6 +201,12 @@ impl C08Check {
                         );
                     }
                 }
+                if defers.len() == 1 && offered_after_second_call != 2 {
+                    ctx.fail(
+                        format!("host-not-offered-the-second-time:{}", key),
+                        format!("{}: executed twice on the same data object, the callback was invoked {} times in all (must be once per execution)", what, offered_after_second_call),
+                    );
+                }
                 if out.left_above_sentinels != 1 || !out.sentinels_intact {
                     ctx.fail(
                         format!("result-count:{}:{}", if out.left_above_sentinels > 1 { "more-than-one" } else { "none-or-operands-eaten" }, key),
@@ -219,7 +232,7 @@ impl Check for C08Check {
         format!(
             "The finite matrix, exhaustively: {} binary instructions (arithmetic, bitwise, access, apply, cast, the four range constructors) x every ordered pair of 32 representative values covering all 20 value types (empty, singleton, typical, nested), and {} unary instructions (arithmetic prefixes, internal accessors, empty apply) x the 32 values, \
              each on SimpleGarnishData, on a copy of it made with clone_with_aux_without_data after the callback was installed, and on BasicGarnishData, with a declining and an accepting deferred-operation callback (the callback absent is the declining case of SimpleGarnishData's default handler). Instructions are called directly with operands placed through the data API above two sentinel registers. \
-             For every combination outside the table of defined combinations (DESIGN.md Appendix C): the call returns Ok, the callback is invoked exactly once with this instruction and both operands (type and address) in source order, declining leaves exactly one new register holding unit, accepting leaves exactly the callback's value, sentinels untouched. \
+             For every combination outside the table of defined combinations (DESIGN.md Appendix C): the call returns Ok, the callback is invoked exactly once with this instruction and both operands (type and address) in source order, declining leaves exactly one new register holding unit, accepting leaves exactly the callback's value, sentinels untouched; executed a second time on the same data object the combination is offered again. \
              Phase cast-targets: every one of the 32 values cast to every one of the 20 types, the target given as a type value. \
              Non-trivial = a combination outside the defined table; distinct = distinct (instruction, operand values).",
             BINARY.len(),
